@@ -30,7 +30,7 @@ RULE = (
 )
 ASSUMPTIONS = ["failure reasons are the anticipated ones of the statement; undecodable input and other crashes are C16's subject"]
 
-REASONS = ["unencodable", "terminator", "terminator", "mirror-tail", "mirror-tail", "fixedonly", "fixedonly", "droplic", "dropcop", "dropboth", "cdroplic", "cdropcop", "cdropboth", "bad-existing", "unrecognised", "line-unsupported", "mutex", "missing-template", "none"]
+REASONS = ["unencodable", "terminator", "terminator", "mirror-tail", "mirror-tail", "fixedonly", "fixedonly", "droplast", "droplic", "dropcop", "dropboth", "cdroplic", "cdropcop", "cdropboth", "bad-existing", "unrecognised", "line-unsupported", "mutex", "missing-template", "none"]
 
 
 def named_twins():
@@ -148,6 +148,9 @@ def check(ctx, c):
         if reason == "unencodable":
             holder = "Jane \udcff Doe"  # what a command-line byte that is not valid UTF-8 becomes
         args = ["annotate", "--copyright", holder, "--license", "MIT", "--year", "2020"]
+        if reason == "droplast":
+            # two licences, the one the template drops being a substring of the one it keeps
+            args = ["annotate", "--copyright", holder, "--license", "GPL-3.0-or-later", "--license", "LGPL-3.0-or-later", "--year", "2020"]
         multi_flag = c["multi"] and reason in ("terminator", "none", "bad-existing")
         if multi_flag:
             args.append("--multi-line")
